@@ -1790,7 +1790,7 @@ func endsWithJump(b *ast.BlockStmt) bool {
 // condition it is only ever an operand of a comparison or arithmetic
 // operator, or the left operand of && / ||, and what stands to its left has
 // no effect.  The if must stand directly in a block and have no init.
-func (p *Program) hoistableCondCall(cs *CallSite) (*ast.IfStmt, bool) {
+func (p *Program) hoistableCondCall(cs *CallSite) (ast.Stmt, bool) {
 	file := cs.In.File
 	info := cs.In.Pkg.TypesInfo
 	var cur ast.Node = cs.Call
@@ -1814,6 +1814,62 @@ func (p *Program) hoistableCondCall(cs *CallSite) (*ast.IfStmt, bool) {
 			}
 			cur = x
 			continue
+		case *ast.CallExpr:
+			// an argument: the function and the arguments before it are evaluated first
+			if x.Fun == cur {
+				return nil, false
+			}
+			if !accessPath(x.Fun) {
+				if _, isLit := x.Fun.(*ast.FuncLit); isLit || !simpleExpr(x.Fun) {
+					return nil, false
+				}
+			}
+			for _, a := range x.Args {
+				if a == cur {
+					break
+				}
+				if !simpleExpr(a) {
+					return nil, false
+				}
+			}
+			cur = x
+			continue
+		case *ast.AssignStmt:
+			for _, l := range x.Lhs {
+				if !accessPath(l) {
+					return nil, false
+				}
+			}
+			for _, r := range x.Rhs {
+				if r == cur {
+					break
+				}
+				if !simpleExpr(r) {
+					return nil, false
+				}
+			}
+			if len(x.Rhs) == 1 && unparen(x.Rhs[0]) == ast.Expr(cs.Call) {
+				return nil, false // the plain form, inlined as it is
+			}
+			return p.hoistTarget(file, x, cs)
+		case *ast.ExprStmt:
+			if unparen(x.X) == ast.Expr(cs.Call) {
+				return nil, false
+			}
+			return p.hoistTarget(file, x, cs)
+		case *ast.ReturnStmt:
+			for _, r := range x.Results {
+				if r == cur {
+					break
+				}
+				if !simpleExpr(r) {
+					return nil, false
+				}
+			}
+			if len(x.Results) == 1 && unparen(x.Results[0]) == ast.Expr(cs.Call) {
+				return nil, false
+			}
+			return p.hoistTarget(file, x, cs)
 		case *ast.IfStmt:
 			if x.Cond != cur || x.Init != nil {
 				return nil, false
@@ -1840,4 +1896,21 @@ func (p *Program) hoistableCondCall(cs *CallSite) (*ast.IfStmt, bool) {
 		}
 		return nil, false
 	}
+}
+
+// hoistTarget: the statement stands directly in a block and the call has a single result.
+func (p *Program) hoistTarget(file *ast.File, st ast.Stmt, cs *CallSite) (ast.Stmt, bool) {
+	switch p.Parent(file, st).(type) {
+	case *ast.BlockStmt, *ast.CaseClause, *ast.CommClause:
+	default:
+		return nil, false
+	}
+	tv, ok := cs.In.Pkg.TypesInfo.Types[cs.Call]
+	if !ok || tv.Type == nil {
+		return nil, false
+	}
+	if _, isTuple := tv.Type.(*types.Tuple); isTuple {
+		return nil, false
+	}
+	return st, true
 }
